@@ -286,6 +286,17 @@ func govPlan(rng *kernel.RNG, tier string, w map[string]int, extra func(rng *ker
 			out[i].S = fmt.Sprintf("as:%d", rng.Intn(n+nCands+nUsers))
 		}
 	}
+	// forced failures after the handler ran (hook H3)
+	if w != nil && w["ff"] > 0 {
+		for i := range out {
+			if out[i].Op != "block" && out[i].Op != "restart" && rng.Chance(float64(w["ff"])/100) {
+				if out[i].S != "" {
+					out[i].S += ","
+				}
+				out[i].S += "ff"
+			}
+		}
+	}
 	if extra != nil {
 		out = extra(rng, out)
 	}
@@ -334,7 +345,7 @@ func init() {
 	}
 	base := "seeded history of native-contract transactions (governance, side-chain registry, relayer registry, vote-router imports, privileged ops with right/wrong witnesses) cut into blocks on a producer with 0-2 followers and clean restarts; every transaction's pre/post state is observed by executing every prefix of its block on the real ledger; "
 	defs := []def{
-		{"C15", base + "oracle: a failed transaction leaves no writes, cross-chain records or events, and removing the failed transactions leaves the block's state digest unchanged. non-trivial = run with succeeding and failing transactions; distinct by chain of block hashes", nil, []string{"block_mixing_success_and_failure", "tx_failed", "tx_succeeded"}},
+		{"C15", base + "oracle: a failed transaction leaves no writes, cross-chain records or events, and removing the failed transactions leaves the block's state digest unchanged. non-trivial = run with succeeding and failing transactions; distinct by chain of block hashes. 12% of the calls are failed by hook H3 after their handler produced all writes, events and cross-chain records", map[string]int{"ff": 12, "import": 8, "chain": 4, "cand": 3, "relayer": 2, "node": 2, "priv": 2, "sig": 1, "burst": 1}, []string{"block_mixing_success_and_failure", "tx_failed", "tx_succeeded", "forced_failure_after_handler"}},
 		{"C32", base + "oracle: per (action, request) the set of distinct witnessed approvers; the action takes effect iff the number of them that are consensus validators in the pre-state reaches ceil(2N/3). non-trivial/distinct as C15", map[string]int{"chain": 6, "cand": 5, "relayer": 4, "node": 3, "import": 1}, []string{"approval_fired_exactly_at_threshold", "approval_by_non_validator"}},
 		{"C33", base + "oracle: after an approval takes effect its request is no longer pending and no later approval round applies it again without a fresh request", map[string]int{"chain": 6, "cand": 4, "relayer": 5, "node": 1, "import": 1}, []string{"approval_took_effect:approvechain", "approval_took_effect:approvecand", "approval_took_effect:approverelayer"}},
 		{"C34", base + "oracle: pool invariants after every transaction (>=4 active, unique keys and indices, blacklisted keys cannot register) and epoch-change rules (view+1, active->consensus, quitting/black dropped, at most one per block)", map[string]int{"cand": 6, "node": 6, "priv": 3, "chain": 1, "import": 1, "relayer": 1}, []string{"epoch_change"}},
